@@ -204,7 +204,7 @@ class Program:
         return exp
 
 
-def random_program(rng, name: Optional[str] = None, nkg: Optional[int] = None) -> Program:
+def random_program(rng, name: Optional[str] = None, nkg: Optional[int] = None, layout: Optional[str] = None) -> Program:
     name = name or rng.choice(PROG_NAMES)
     header = {}
     for fname, off, kind in HEADER:
@@ -229,7 +229,7 @@ def random_program(rng, name: Optional[str] = None, nkg: Optional[int] = None) -
         kg["auxout"] = [rng.randrange(256) for _ in range(4)]
         kg["vss"] = [rng.randrange(-9999, 10000) for _ in range(4)]
         kgs.append(kg)
-    mode = rng.choice(["standard", "standard", "gaps", "shuffled", "sequential"])
+    mode = layout or rng.choice(["standard", "standard", "gaps", "shuffled", "sequential", "backward", "zigzag"])
     prog = Program(name, header, kgs, s3000=rng.random() < 0.3)
     if mode == "gaps":
         a, addrs = rng.choice([72, 100, 150, 192]), []
@@ -241,6 +241,22 @@ def random_program(rng, name: Optional[str] = None, nkg: Optional[int] = None) -
         slots = [150 + 160 * i for i in range(n)]
         rng.shuffle(slots)
         prog.addrs = slots
+    elif mode == "backward":
+        # every link points backwards (S55): the chain runs from the end of the file to its start
+        a0 = rng.choice([72, 150, 170])
+        step = KEYGROUP_SIZE + rng.choice([0, 0, 10, 60])
+        prog.addrs = [a0 + step * (n - 1 - i) for i in range(n)]
+    elif mode == "zigzag":
+        # forward and backward links alternate; a keygroup may directly follow its successor
+        a0, step = rng.choice([100, 150]), KEYGROUP_SIZE + rng.choice([0, 20])
+        slots = [a0 + step * i for i in range(n)]
+        order = []
+        lo, hi = 0, n - 1
+        while lo <= hi:
+            order.append(slots[lo]); lo += 1
+            if lo <= hi:
+                order.append(slots[hi]); hi -= 1
+        prog.addrs = order
     elif mode == "sequential":
         prog.linked = False
         prog.addrs = [150 + KEYGROUP_SIZE * i for i in range(n)]
